@@ -139,6 +139,8 @@ Mutants(v) ==
             k \in 1..Len(v.locked), a \in 1..NAssets }
   \cup { <<"locked_added", [v EXCEPT !.locked = Append(@, [id |-> "s2", bals |-> [a \in 1..NAssets |-> 1]])]>> }
   \cup { <<"locked_removed", [v EXCEPT !.locked = Drop(@)]>> : k \in 1..Len(v.locked) }
+  \* the same sub-channel listed once more (nothing forbids two entries with one id; both count for the total)
+  \cup { <<"locked_dup", [v EXCEPT !.locked = Append(@, @[k])]>> : k \in 1..Len(v.locked) }
 
 Verdicts(cur, c) == [a \in 1..NP+1 |-> Valid(cur, c, a - 1)]
 Whys(cur, c) == [a \in 1..NP+1 |-> Why(cur, c, a - 1)]
@@ -183,7 +185,7 @@ ASSUME \A cur \in CurStates : \A c \in WFSucc(cur) :
           /\ ~Valid(cur, c, NP)
           /\ (App = "none" => \A a \in 0..NP-1 : Valid(cur, c, a) = ~cur.fin)
 ASSUME \A cur \in CurStates : \A v \in WFSucc(cur) : \A m \in Mutants(v) :
-          (\E a \in Actors : Valid(cur, m[2], a)) => m[2] \in WFSucc(cur)
+          (\E a \in Actors : Valid(cur, m[2], a)) => (m[2] \in WFSucc(cur) \/ m[1] = "locked_dup")   \* a second entry worth nothing is valid
 
 ASSUME Export = FALSE \/ ExportCases
 
